@@ -1,6 +1,7 @@
 // C34 — every DNS request reports its outcome exactly once, whatever the nameservers do.
-// History: up to 8 requests (resolve_ipv4/ipv6/reverse with NO_SEARCH/USEVC/IGNTC flags, evdns_getaddrinfo) on an
-// evdns_base with 1-3 fake nameservers, max-inflight 1-4, generated timeout/attempts/max-timeouts and a search list;
+// History: up to 20 requests (resolve_ipv4/ipv6/reverse with NO_SEARCH/USEVC/IGNTC flags, evdns_getaddrinfo), issued one by one or in
+// bursts of 2-12, on an evdns_base with 1-3 fake nameservers, max-inflight 1-12 (in-flight table of 1-3 hash buckets; a burst overflows
+// it into the waiting queue; the limit can also be changed while requests are outstanding), generated timeout/attempts/max-timeouts and a search list;
 // per query the fake servers drop, answer, answer late, or send NXDOMAIN / SERVFAIL / REFUSED / NOTIMPL / TC / garbage;
 // TCP connections are answered, cut after k bytes or closed; requests are cancelled from top level and from inside
 // callbacks; callbacks issue new requests; the base is freed (fail_requests 0/1) at top level or inside a callback, or
@@ -9,6 +10,7 @@
 // call after evdns_base_free; the loop is run once after evdns_base_free so that deferred callbacks are delivered.
 #include "dns_common.hh"
 #include <map>
+#include <set>
 using namespace dnsw;
 
 namespace {
@@ -34,6 +36,7 @@ struct Ctx {
   Src *s; World *w; R r[MAXREQ]; int nreq = 0; bool base_freed = false; int freed_fail = -1; bool freed_in_cb = false; bool gai_pending_at_free0 = false;
   int cb_depth = 0; std::vector<Delayed> delayed; bool k_rt_uaf = false, k_gai_leak = false, k_probe_uaf = false, k_gai_uaf = false, k_stall = false; bool ns_may_have_failed = false; bool closing = false; int maxinf = 0; bool followup_possible = false;
   int n_timeouts = 0, n_tcp = 0, n_cancel = 0, n_incb = 0, n_retrans = 0, n_late = 0, n_search = 0, n_failover = 0;
+  std::set<int> touched; std::map<int, std::vector<int> > conn_ids;   // IDs the fake servers have reacted to (a reply of any kind, or closing the TCP connection that carried them): their requests may be over
   std::vector<Item> pending; int epoch = 0;   // queries read from the fake servers but not served yet; epoch = which collect() saw them
   int ndom = 0, n_burst = 0, n_relimit = 0, live_at_free = -1, maxinf_at_free = 0;
 };
@@ -170,12 +173,14 @@ int serve(Ctx &cx, bool silent) {
       if (!cx.base_freed) CHECK(r.issued, "C34/query-for-failed-request", "query for r%d whose resolve call returned NULL", o); }
     qs.push_back(q); }
   // transaction IDs: two different live requests whose queries were read by the same collect() (i.e. both were transmitted with no
-  // timeout, late reply or served reply in between) must not carry the same ID.  (Comparing across epochs would be unsound: an ID is free
-  // again as soon as its request -- or one half of a getaddrinfo, or one search candidate -- is done, which the fake servers cannot see.)
+  // time step in between) must not carry the same ID, unless the fake servers have ever reacted to that ID.  (Anything more would be
+  // unsound: an ID is free again as soon as its request -- or one half of a getaddrinfo, or one search candidate -- is done, which the
+  // fake servers cannot see; e.g. a query and its retransmission are answered REFUSED and NXDOMAIN in one batch: the resolver re-sends
+  // the query, finishes it, and may hand the same ID to the next candidate of another request, all within one loop run.)
   if (!cx.base_freed) { std::map<long, int> seen;
     for (size_t n = 0; n < qs.size(); n++) { int o = owner_of(qs[n]); if (o < 0 || o >= cx.nreq) continue; R &r = cx.r[o]; if (!r.live() || r.cancel_called) continue;
       int slot = qs[n].type == T_AAAA && r.kind == K_GAI ? 1 : 0; int who = o * 2 + slot; long ek = (long)items[n].epoch * 65536 + qs[n].id; auto it2 = seen.find(ek);
-      if (it2 != seen.end() && it2->second != who) VERIF_FAIL("C34/duplicate-transaction-id", "requests r%d and r%d, both in flight, use transaction ID 0x%04x", it2->second / 2, o, qs[n].id);
+      if (it2 != seen.end() && it2->second != who && !cx.touched.count(qs[n].id)) VERIF_FAIL("C34/duplicate-transaction-id", "requests r%d and r%d, both in flight, use transaction ID 0x%04x", it2->second / 2, o, qs[n].id);
       seen[ek] = who; } }
   for (size_t n = 0; n < items.size(); n++) { Item &it = items[n]; Query &q = qs[n]; handled++;
     if (silent) continue;
@@ -187,12 +192,15 @@ int serve(Ctx &cx, bool silent) {
       if (cx.k_rt_uaf && (other || o < 0 || o >= cx.nreq || cx.r[o].kind == K_GAI)) { verif_known_skipped("asan:heap-use-after-free@retransmit_all_tcp_requests_for"); act = 1; }
       else if (o >= 0 && o < cx.nreq) cx.r[o].tcp = true; }
     if (act == 4 || act == 5) cx.ns_may_have_failed = true;
+    if (it.tcp) cx.conn_ids[it.conn].push_back(q.id);
     if (act == 2) { TR("    drop"); continue; }
+    cx.touched.insert(q.id);
     std::vector<uint8_t> rep = make_reply(s, it.data, q, act == 8 ? 0 : act);
     if (act == 8) { Delayed d; d.tcp = it.tcp; d.ns = it.ns; d.to = it.from; d.conn = it.conn; d.bytes = rep; cx.delayed.push_back(d); TR("    answer later"); continue; }
     if (!it.tcp) { TR("    reply act=%d", act); udp_send(it.ns, it.from, rep.data(), rep.size()); }
     else { TcpConn &c = w.conns[it.conn]; int tact = s.below(6);   // 0-2 full reply, 3 partial then close, 4 close at once, 5 full reply then close
       std::vector<uint8_t> st; st.push_back((uint8_t)(rep.size() >> 8)); st.push_back((uint8_t)rep.size()); st.insert(st.end(), rep.begin(), rep.end());
+      if (tact >= 3) for (int id : cx.conn_ids[it.conn]) cx.touched.insert(id);   // every request on this connection is affected by the close
       if (tact == 4) { TR("    tcp close"); w.tcp_close(c); continue; }
       size_t n2 = tact == 3 ? s.below((uint32_t)st.size()) : st.size();
       TR("    tcp reply act=%d bytes=%zu/%zu%s", act, n2, st.size(), tact >= 3 ? " then close" : "");
@@ -247,7 +255,7 @@ extern "C" int LLVMFuzzerTestOneInput(const uint8_t *data, size_t size) {
       case 1: case 2: issue(cx, false); break;
       case 3: { int j = s.below(MAXREQ); if (j < cx.nreq) cancel(cx, j, false); break; }
       case 4: case 5: case 6: w.turn(); if (w.dns) serve(cx, false); if (w.dns) w.turn(); break;
-      case 7: TR("advance"); collect(cx); { int64_t t0 = sim_now_us(); w.advance(); if (sim_now_us() > t0) { cx.n_timeouts++; cx.ns_may_have_failed = true; } } break;
+      case 7: TR("advance"); collect(cx); { int64_t t0 = sim_now_us(); w.advance(); TR("  time +%lld us", (long long)(sim_now_us() - t0)); if (sim_now_us() > t0) { cx.n_timeouts++; cx.ns_may_have_failed = true; } } break;
       case 8: w.turn(); if (!cx.delayed.empty()) collect(cx); deliver_delayed(cx); w.turn(); break;
       case 9: if (s.chance(1, 3)) { free_base(cx, s.below(2), false); end_mode = 0; } break;
       case 10: burst(cx); break;
